@@ -152,6 +152,21 @@ def run_case(kind, p):
             ref = dense_ref(m, int(py) - c, int(px) - c, sy, sx)   # mask centre (c, c) on the peak
             if not np.allclose(st[k], ref, atol=0, rtol=0):
                 msgs.append(f"feature_vector layer {k} peak {(int(py), int(px))}: mask centre is not on the peak")
+        # the same pattern object again after one of its mask-defining parameters was changed (search, hence the stamp size,
+        # unchanged), for another frame shape and peak list: the stack shows the pattern's CURRENT mask
+        if hasattr(pat, "radius") and not msgs:
+            pat.radius = float(pat.radius) * 0.8
+            if hasattr(pat, "template"):
+                pat.template = pat.template * -2.0
+            peaks2 = peaks[::-1] + 1
+            st2 = pt.feature_vector(sx + 1, sy + 2, peaks2, pat).todense()
+            m2 = pat.get_mask((2 * c + 1, 2 * c + 1))
+            for k, (py, px) in enumerate(peaks2):
+                ref = dense_ref(m2, int(py) - c, int(px) - c, sy + 2, sx + 1)
+                if not np.allclose(st2[k], ref, atol=0, rtol=0):
+                    msgs.append(f"feature_vector layer {k} peak {(int(py), int(px))} after the radius of the (already used) pattern "
+                                f"object was changed: the layer is not the pattern's current mask centred on the peak")
+                    break
     elif kind == "circular":
         sy, sx, radius = p["sy"], p["sx"], p["radius"]
         cen = p["centers"]
